@@ -248,10 +248,20 @@ func okFlagUsedRule(w *World, r *Report, e *Engine, rule string) {
 		}
 		return false
 	}
+	var roots []*ssa.Function
 	for _, root := range w.registeredFuncs() {
-		if !strings.HasPrefix(fnPkgPath(root), modPath+"/lib/core") {
-			continue
+		if strings.HasPrefix(fnPkgPath(root), modPath+"/lib/core") {
+			roots = append(roots, root)
 		}
+	}
+	// ... and the predicates of package types the builtins are registered from or built on (true?, false?, nil? …):
+	// functions of one lisp value with a bool result
+	for _, f := range w.pkgFuncs("types") {
+		if f.Parent() == nil && f.Signature.Recv() == nil && len(f.Params) == 1 && isMalType(f.Params[0].Type()) && isBoolResult(f) && len(f.Blocks) > 0 {
+			roots = append(roots, f)
+		}
+	}
+	for _, root := range roots {
 		for _, fn := range w.withPkgHelpers(root) {
 			if seen[fn] {
 				continue
@@ -269,6 +279,22 @@ func okFlagUsedRule(w *World, r *Report, e *Engine, rule string) {
 					val, flag := tupleExtract(ta, 0), tupleExtract(ta, 1)
 					if !used(val) {
 						continue
+					}
+					// in a predicate of package types a dropped flag is harmless where the zero value is the answer "no"
+					// (b, _ := x.(bool); return b): only a value that is negated or compared can turn "other kind" into "yes"
+					if fnPkgPath(fn) == modPath+"/types" && !used(flag) {
+						inverted := false
+						for _, ref := range *val.Referrers() {
+							switch u := ref.(type) {
+							case *ssa.UnOp:
+								inverted = inverted || u.Op == token.NOT
+							case *ssa.BinOp:
+								inverted = true
+							}
+						}
+						if !inverted {
+							continue
+						}
 					}
 					n++
 					if used(flag) {
@@ -1669,4 +1695,168 @@ func readStringTotalRule(w *World, r *Report, rule string) {
 		}
 	}
 	r.floor(rule, "calls that are handed the text", n, 1)
+}
+
+// argLoopCompleteRule: a variadic collection builtin that walks its argument list walks all of it: the loop
+// over the arguments is left before the last one only by a return, or on an error. A loop that is left on a
+// property of one argument (an empty one, a nil) and then answers from what it has so far drops the arguments
+// behind it.
+func argLoopCompleteRule(w *World, r *Report, rule string) {
+	r.rule(rule, "in the variadic builtins of lib/core (func(a ...MalType)) a loop bounded by len(a) is left for the code behind it only from its header (all arguments seen) or under a test of an error: no break on a property of a single argument, after which the answer is made from the arguments before it")
+	n := 0
+	for _, fn := range w.registeredFuncs() {
+		if !strings.HasPrefix(fnPkgPath(fn), modPath+"/lib/core") || len(fn.Params) == 0 || len(fn.Blocks) == 0 || !fn.Signature.Variadic() {
+			continue
+		}
+		a := fn.Params[len(fn.Params)-1]
+		sl, ok := a.Type().Underlying().(*types.Slice)
+		if !ok || !isMalType(sl.Elem()) {
+			continue
+		}
+		isLenA := func(v ssa.Value) bool {
+			c, ok := v.(*ssa.Call)
+			if !ok {
+				return false
+			}
+			b, ok := c.Call.Value.(*ssa.Builtin)
+			return ok && b.Name() == "len" && len(c.Call.Args) == 1 && c.Call.Args[0] == ssa.Value(a)
+		}
+		for _, l := range naturalLoops(fn) {
+			iff := blockIf(l.header)
+			if iff == nil {
+				continue
+			}
+			bo, ok := iff.Cond.(*ssa.BinOp)
+			if !ok || !(isLenA(bo.X) || isLenA(bo.Y)) {
+				continue
+			}
+			blocks := loopBlocks(l)
+			var exit *ssa.BasicBlock
+			for _, s := range l.header.Succs {
+				if !blocks[s] {
+					exit = s
+				}
+			}
+			if exit == nil {
+				continue
+			}
+			n++
+			clean := true
+			for _, p := range exit.Preds {
+				if p == l.header || !blocks[p] {
+					continue
+				}
+				// the test that decides this way out
+				q := p
+				for blockIf(q) == nil && len(q.Preds) == 1 && blocks[q.Preds[0]] {
+					q = q.Preds[0]
+				}
+				onErr := false
+				if qi := blockIf(q); qi != nil {
+					for _, at := range condsOf(nil, qi.Cond, true) {
+						if c, ok := at.v.(*ssa.BinOp); ok && (c.Op == token.EQL || c.Op == token.NEQ) && isNilConst(c.Y) && isErrorType(c.X.Type()) {
+							onErr = true
+						}
+					}
+					for _, at := range condsOf(nil, qi.Cond, false) {
+						if c, ok := at.v.(*ssa.BinOp); ok && (c.Op == token.EQL || c.Op == token.NEQ) && isNilConst(c.Y) && isErrorType(c.X.Type()) {
+							onErr = true
+						}
+					}
+				}
+				if onErr {
+					continue
+				}
+				clean = false
+				pos := fn.Pos()
+				if qi := blockIf(q); qi != nil && qi.Cond.Pos().IsValid() {
+					pos = qi.Cond.Pos()
+				}
+				r.bad(rule, fn, "loop over the arguments of "+fn.Name(), pos, "the loop over the argument list is left before its end on a test that is no error test, and the builtin goes on to answer: the arguments behind the one that met the test are dropped (the answer is not the one the model gives for all arguments)")
+			}
+			if clean {
+				r.ok(rule, fn, "loop over the arguments of "+fn.Name(), l.header.Instrs[len(l.header.Instrs)-1].Pos(), "left only from its header, by a return or on an error")
+			}
+		}
+	}
+	r.floor(rule, "loops over the whole argument list in variadic builtins", n, 3)
+}
+
+// indexAsGivenRule: a position a program asks for is looked up as given, or refused. A builtin that re-bases a
+// position before it reads the element (a negative one counted from the end) answers with a value where the
+// model has none: the index that reaches an element read is never the merge of a value with that value plus a
+// length.
+func indexAsGivenRule(w *World, r *Report, rule string) {
+	r.rule(rule, "in the collection builtins of lib/core the index of an element read is never the merge of a value v with v + len(...) (a position outside 0..len-1 is an error, not a position counted from the other end)")
+	strip := func(v ssa.Value) ssa.Value {
+		for {
+			switch x := v.(type) {
+			case *ssa.Convert:
+				v = x.X
+			case *ssa.ChangeType:
+				v = x.X
+			default:
+				return v
+			}
+		}
+	}
+	isLen := func(v ssa.Value) bool {
+		c, ok := strip(v).(*ssa.Call)
+		if !ok {
+			return false
+		}
+		b, ok := c.Call.Value.(*ssa.Builtin)
+		return ok && b.Name() == "len"
+	}
+	n := 0
+	seen := map[*ssa.Function]bool{}
+	for _, root := range w.registeredFuncs() {
+		if !strings.HasPrefix(fnPkgPath(root), modPath+"/lib/core") {
+			continue
+		}
+		for _, fn := range w.withPkgHelpers(root) {
+			if seen[fn] {
+				continue
+			}
+			seen[fn] = true
+			for _, b := range fn.Blocks {
+				for _, in := range b.Instrs {
+					ia, ok := in.(*ssa.IndexAddr)
+					if !ok {
+						continue
+					}
+					if _, isConst := ia.Index.(*ssa.Const); isConst {
+						continue
+					}
+					n++
+					phi, ok := strip(ia.Index).(*ssa.Phi)
+					if !ok {
+						continue
+					}
+					for _, e1 := range phi.Edges {
+						bo, ok := strip(e1).(*ssa.BinOp)
+						if !ok || bo.Op != token.ADD {
+							continue
+						}
+						var base ssa.Value
+						if isLen(bo.Y) {
+							base = strip(bo.X)
+						} else if isLen(bo.X) {
+							base = strip(bo.Y)
+						}
+						if base == nil {
+							continue
+						}
+						for _, e2 := range phi.Edges {
+							if strip(e2) == base {
+								r.bad(rule, fn, "index of the element read in "+fn.Name(), ia.Pos(), "the position is either the value asked for or that value plus a length: a position below zero is counted from the end and answered with an element, where the definition prescribes an error (index out of range)")
+							}
+						}
+					}
+				}
+			}
+		}
+	}
+	r.add(rule, nil, "element reads with a computed index", token.NoPos, "ok", fmt.Sprintf("%d examined", n))
+	r.floor(rule, "element reads with a computed index in lib/core", n, 3)
 }
